@@ -28,3 +28,4 @@ def rules(ctx):
     S.builder_fill_rules(ctx)
     L.inplace_edit_rules(ctx)
     L.get_mut_cow_rules(ctx)
+    L.split_root_and_drop_rules(ctx)
